@@ -1,9 +1,92 @@
-"""Regeneration of the source-derived Coq files (DESIGN §3.1).  Filled in per property."""
-import common
+"""Regeneration of the source-derived Coq files under coq/gen (DESIGN §3.1).
 
-GENERATORS = []  # list of (name, function(strict) -> None)
+Every generator is fail-closed: anything it cannot translate raises, and the
+check that depends on the file reports the tie to the source as broken.
+Files are rewritten only when their content changes.
+"""
+import json
+import os
+
+import common
+import to_coq
+from common import cz, cstr, clist, cpair
+
+GEN = os.path.join(common.COQ, "gen")
+
+
+def _std_value(fcp, t, raw):
+    from fcp.specs import type as T
+    if type(t) is T.UnsignedType:
+        if raw == "ULONG_MAX":
+            return 2 ** 64 - 1
+        return int(raw, 0)
+    if type(t) is T.SignedType:
+        if raw == "LLONG_MAX":
+            return 2 ** 63 - 1
+        if raw == "LLONG_MIN":
+            return -(2 ** 63)
+        return int(raw, 0)
+    if type(t) in (T.FloatType, T.DoubleType):
+        return float(raw)
+    if type(t) is T.StringType:
+        return str(raw)
+    if type(t) is T.EnumType:
+        e = fcp.get_enum(t.name).unwrap()
+        m = {x.name: x.value for x in e.enumeration}
+        return m[raw]
+    if type(t) in (T.ArrayType, T.DynamicArrayType):
+        return [_std_value(fcp, t.underlying_type, x) for x in raw]
+    if type(t) is T.OptionalType:
+        return None if raw is None else _std_value(fcp, t.underlying_type, raw)
+    raise TypeError(f"std vectors: unsupported type {t!r}")
+
+
+def std_vectors():
+    """Python view of tests/standardized: [(suite, test, fcp, struct, value, bytes)]."""
+    from fcp.parser import get_fcp
+    d = os.path.join(common.REPO, "tests", "standardized")
+    suites = json.load(open(os.path.join(d, "fcp_tests.json")))
+    out = []
+    for suite in suites:
+        fcp = get_fcp(os.path.join(d, suite["schema"])).unwrap()
+        for t in suite["tests"]:
+            s = fcp.get_struct(t["datatype"]).unwrap()
+            val = {}
+            for xpath, raw in t["decoded"].items():
+                root, path = xpath.split(":")
+                if root != s.name or "/" in path:
+                    raise TypeError(f"std vectors: unsupported xpath {xpath}")
+                val[path] = _std_value(fcp, s.get_field(path).type, raw)
+            out.append((suite["name"], t["name"], fcp, s.name, val, [x if isinstance(x, int) else int(x, 0) for x in t["encoded"]]))
+    return out
+
+
+def gen_std_vectors(strict=True):
+    items = []
+    for suite, name, fcp, sname, val, enc in std_vectors():
+        items.append(cpair(to_coq.schema(fcp), cstr(sname), to_coq.struct_value(fcp, sname, val), clist(cz(b) for b in enc)))
+    body = ("(* GENERATED from /repo/tests/standardized on every run; do not edit. *)\n"
+            "From Coq Require Import String ZArith List Bool.\n"
+            "From FcpV Require Import Corr.Serde.\nImport ListNotations.\nOpen Scope Z_scope.\n\n"
+            "Definition vectors : list (schema * string * value * list Z) := [\n  " + ";\n  ".join(items) + "\n].\n\n"
+            "Lemma std_vectors_ok : forallb check_vector vectors = true.\nProof. vm_compute. reflexivity. Qed.\n")
+    common.write_if_changed(os.path.join(GEN, "StdVectors.v"), body)
+
+
+GENERATORS = {
+    "StdVectors": gen_std_vectors,
+}
+
+BY_PROP = {
+    "C02": ["StdVectors"],
+}
 
 
 def regenerate_all(strict=True):
-    for name, fn in GENERATORS:
+    for name, fn in GENERATORS.items():
         fn(strict)
+
+
+def regenerate_for(prop):
+    for name in BY_PROP.get(prop, []):
+        GENERATORS[name](True)
